@@ -2,6 +2,7 @@
 from ..core import rng_for, rand_digits, M64, ndig
 from ..oracles import cmd_root, iroot
 
+THOROUGH_SEEDS = 20   # the thorough tier repeats its staged workload over this many derived seeds
 RULE = ('x: 0, 1, < 2^64 (primitive path), 2^64..2^1024 (finite f64 guess; emphasis near 2^1023..2^1024), > 2^1024 up to 2^8192 '
         '(scaled recursion incl. the power-of-two fallback), perfect powers r^n and r^n +- 1, x with bit length <= n / = n+1, '
         'values with only the top bits set over long zero tails; n: 1,2,3,4,5,7,10,63,64,65,80,100,128,1000, bits-1, bits, bits+1, '
